@@ -27,7 +27,7 @@ def spec_value(cell):
         while n % 2 == 0:
             n //= 2
             e += 1
-        if abs(n) >= 2 ** 31 or abs(e) > 1000:
+        if abs(n) >= 2 ** 31 or abs(e) > 1100:
             return {'v': [k, 0, 0], 'big': True}
         return {'v': [k, n, e], 'big': False}
     if tn == 'STRING':
